@@ -88,7 +88,7 @@ Proof.
   intros F.
   assert (E : exists s ev, run cfg_off (init_m 1) w_use_after_unload = Some (s, ev) /\ In (EReply 1 (ROk 0 true)) ev).
   { vm_compute. eexists; eexists; split; [reflexivity|]. simpl. tauto. }
-  destruct E as (s & ev & R & Hin). specialize (F _ _ _ _ _ _ _ _ R Hin). discriminate.
+  destruct E as (s & ev & R & Hin). specialize (F _ _ _ _ _ _ _ _ R Hin). clear - F. discriminate F.
 Qed.
 
 Definition st_of (c : config) (m : nat) (ls : list label) : state :=
@@ -100,7 +100,7 @@ Proof. unfold st_of. destruct (run c (init_m m) ls) as [[s ev]|]; intros H; [eau
 Theorem bound_refuted : ~ bound_full.
 Proof.
   intros F. destruct (st_of_run cfg_off 1 w_stale_event) as (ev & R). { vm_compute. discriminate. }
-  specialize (F cfg_off _ _ _ _ (le_n 1) R). revert F. vm_compute. intros F. specialize (F (le_n 1)). lia.
+  specialize (F cfg_off _ _ _ _ (le_n 1) R). revert F. clear. vm_compute. intros F. specialize (F (le_n 1)). lia.
 Qed.
 
 Theorem one_per_model_refuted : ~ one_per_model_full.
@@ -110,7 +110,7 @@ Proof.
   assert (E : exists x1 x2, getr s 1 = Some x1 /\ getr s 2 = Some x2 /\ r_closed x1 = false /\ r_closed x2 = false /\
                             r_model x1 = r_model x2).
   { vm_compute. eexists; eexists; repeat split; reflexivity. }
-  destruct E as (x1 & x2 & A & B & C & D & M). specialize (F cfg_off _ _ _ _ _ _ _ _ R A B C D M). discriminate.
+  destruct E as (x1 & x2 & A & B & C & D & M). specialize (F cfg_off _ _ _ _ _ _ _ _ R A B C D M). clear - F. discriminate F.
 Qed.
 
 Theorem no_close_in_use_refuted : ~ no_close_in_use_full.
@@ -119,7 +119,7 @@ Proof.
   set (s := st_of cfg_off 1 w_close_in_use) in *.
   assert (E : exists x y, getq s 2 = Some x /\ q_grant x = Some 2 /\ q_cancelled x = false /\ getr s 2 = Some y /\ r_closed y = true).
   { vm_compute. eexists; eexists; repeat split; reflexivity. }
-  destruct E as (x & y & A & B & C & D & M). specialize (F cfg_off _ _ _ _ _ _ _ _ R A B C D). congruence.
+  destruct E as (x & y & A & B & C & D & M). specialize (F cfg_off _ _ _ _ _ _ _ _ R A B C D). clear - F M. rewrite M in F. discriminate F.
 Qed.
 
 (* the deadlock: every LRun step of the witness state is disabled while two threads wait for mutexes *)
@@ -127,7 +127,7 @@ Definition s_deadlock : state := Eval vm_compute in st_of cfg_off 1 w_deadlock.
 
 Lemma s_deadlock_stuck : forall t alt, step cfg_off s_deadlock (LRun t alt) = None.
 Proof.
-  intros t alt. destruct t as [|[|[|[|[|t]]]]]; cbn; try reflexivity;
+  intros t alt. destruct t as [|[|[|[|[|t]]]]]; cbn; try reflexivity; try (destruct t; reflexivity);
   destruct (Z.eqb alt 0); try reflexivity; destruct (Z.eqb alt 1); reflexivity.
 Qed.
 
